@@ -26,7 +26,7 @@ IsEvent(e) == l <= Len(Rec) /\ Rec[l].ev = e /\ l' = l + 1
 Top == stk[Len(stk)]
 Pop == SubSeq(stk, 1, Len(stk) - 1)
 SetTop(f) == [stk EXCEPT ![Len(stk)] = f]
-Unknown == 0 - 999999      \* a returned value the stream does not determine (quiescence)
+Unknown == 0 - 999999      \* a returned value the stream does not determine (quiescence that was not sampled)
 MateAt(k) == IF k + 1 <= Len(mate) THEN mate[k + 1] ELSE mate[Len(mate)]
 KeyId(p) == <<p.board, p.stm, p.castle, IF p.ep # 0 /\ EpLegal(p) THEN p.ep ELSE 0>>
 
@@ -54,7 +54,8 @@ TEnter ==
         /\ keymap' = IF known THEN keymap ELSE [k \in DOMAIN keymap \cup {e.key} |-> IF k = e.key THEN KeyId(p) ELSE keymap[k]]
         /\ stk' = Append(IF stk = <<>> THEN stk ELSE SetTop([Top EXCEPT !.st = "waiting"]),
                          [p |-> p, key |-> e.key, a |-> e.alpha, b |-> e.beta, cur |-> e.cur, max |-> e.max, ext |-> e.ext, st |-> "entered",
-                          mv |-> StartPos, hasmv |-> FALSE, extend |-> 0, best |-> FALSE, any |-> FALSE, probe |-> "none", pval |-> 0])
+                          mv |-> StartPos, hasmv |-> FALSE, extend |-> 0, best |-> FALSE, any |-> FALSE, probe |-> "none", pval |-> 0,
+                          tried |-> {}, lastk |-> 0 - 100000, stat |-> 0])
   /\ ret' = Unknown /\ UNCHANGED <<pos, hist, root, mate>>
 
 \* a frame finishes with value v (its own point of view): hand it to the parent
@@ -85,10 +86,88 @@ TProbeReturn ==
   /\ Diag("DRIFT", Top.st = "probed" /\ Top.probe = "return" /\ Rec[l].value = Top.pval, [kind |-> "table value used although the model would search on (or other value)", value |-> Rec[l].value])
   /\ Finish(Rec[l].value) /\ UNCHANGED <<pos, keymap, hist, root, mate>>
 
+\* Quiescence.  Without `detail` the capture search below the horizon is one opaque step whose value the stream
+\* does not determine; with `detail` (the hook samples some of the calls) every node of it follows as Q-events and
+\* is held to the quiescence rule of Search.tla (QS/QSLoop) with the static scores as inputs.
 TQuiesce ==
   /\ IsEvent("Quiesce")
   /\ Diag("DRIFT", Top.st = "probed" /\ Top.probe = "go" /\ Top.cur >= Top.max, [kind |-> "quiescence entered above the horizon or after a usable table hit", cur |-> Top.cur, max |-> Top.max])
-  /\ Finish(Unknown) /\ UNCHANGED <<pos, keymap, hist, root, mate>>
+  /\ (IF "detail" \in DOMAIN Rec[l] /\ Rec[l].detail THEN stk' = SetTop([Top EXCEPT !.st = "quiescing"]) /\ ret' = Unknown ELSE Finish(Unknown))
+  /\ UNCHANGED <<pos, keymap, hist, root, mate>>
+
+IsQ(f) == f.st \in {"qentered", "qloop", "qdescended", "qwaiting", "qcut"}
+WorthQ(k) == CASE k = "P" -> 10 [] k = "N" -> 30 [] k = "B" -> 35 [] k = "R" -> 50 [] k = "Q" -> 90 [] k = "K" -> 1000 [] OTHER -> 0
+OrderKey(m) == WorthQ(m.piece) - WorthQ(m.capture)      \* the code sorts by -(captured - mover), stable
+CapturesOf(p) == { m \in Legal(p) : m.capture # "." }
+QFrame(p, a, b, cur) == [p |-> p, key |-> "", a |-> a, b |-> b, cur |-> cur, max |-> 0, ext |-> 0, st |-> "qentered",
+                         mv |-> StartPos, hasmv |-> FALSE, extend |-> 0, best |-> FALSE, any |-> FALSE, probe |-> "none", pval |-> 0,
+                         tried |-> {}, lastk |-> 0 - 100000, stat |-> 0]
+
+TQEnter ==
+  /\ IsEvent("QEnter")
+  /\ LET e == Rec[l] IN
+       IF Top.st = "quiescing"
+       THEN /\ Diag("DRIFT", e.alpha = Top.a /\ e.beta = Top.b /\ e.depth = Top.cur, [kind |-> "quiescence does not start with the node's window and ply", alpha |-> e.alpha, beta |-> e.beta, depth |-> e.depth])
+            /\ stk' = Append(Pop, QFrame(Top.p, e.alpha, e.beta, e.depth))
+       ELSE /\ Diag("DRIFT", Top.st = "qdescended", [kind |-> "quiescence node entered without a capture being made", st |-> Top.st])
+            /\ Diag("DRIFT", e.alpha = 0 - Top.b /\ e.beta = 0 - Top.a /\ e.depth = Top.cur + 1, [kind |-> "quiescence child window is not the negated parent window one ply deeper", alpha |-> e.alpha, beta |-> e.beta, depth |-> e.depth])
+            /\ stk' = Append(SetTop([Top EXCEPT !.st = "qwaiting"]), QFrame(Apply(Top.p, Top.mv), e.alpha, e.beta, e.depth))
+  /\ ret' = Unknown /\ UNCHANGED <<pos, keymap, hist, root, mate>>
+
+TQTerminal ==
+  /\ IsEvent("QTerminal")
+  /\ LET v == Rec[l].value st == Status(Top.p) IN
+       /\ Diag("DRIFT", Top.st = "qentered", [kind |-> "quiescence terminal out of place", st |-> Top.st])
+       /\ Diag("C05", st # "open" /\ v = (IF st = "mate" THEN 0 - MateAt(Top.cur) ELSE 0), [kind |-> "quiescence node without legal moves is not scored as mate/stalemate at its ply", pos |-> ToFen(Top.p), value |-> v, ply |-> Top.cur])
+       /\ Finish(v)
+  /\ UNCHANGED <<pos, keymap, hist, root, mate>>
+
+\* the static score is an input; what the node does with it is prescribed (stand-pat)
+TQStatic ==
+  /\ IsEvent("QStatic")
+  /\ LET e == Rec[l] caps == CapturesOf(Top.p) IN
+       /\ Diag("DRIFT", Top.st = "qentered" /\ Legal(Top.p) # {}, [kind |-> "static score taken out of place or in a position without moves", st |-> Top.st, pos |-> ToFen(Top.p)])
+       /\ Diag("DRIFT", e.quiet = (caps = {}), [kind |-> "quiescence disagrees with the rules about whether a capture is possible", pos |-> ToFen(Top.p), quiet |-> e.quiet])
+       /\ stk' = SetTop([Top EXCEPT !.stat = e.static,
+                                      !.st = (IF caps = {} \/ e.static >= Top.b THEN "qcut" ELSE "qloop"),
+                                      !.pval = (IF caps = {} THEN e.static ELSE Top.b),
+                                      !.a = (IF caps # {} /\ e.static < Top.b /\ e.static > Top.a THEN e.static ELSE Top.a)])
+  /\ ret' = Unknown /\ UNCHANGED <<pos, keymap, hist, root, mate>>
+
+TQDescend ==
+  /\ IsEvent("QDescend")
+  /\ LET m == Rec[l].mv IN
+       /\ Diag("DRIFT", Top.st = "qloop", [kind |-> "quiescence capture loop entered out of place", st |-> Top.st])
+       /\ Diag("DRIFT", m \in CapturesOf(Top.p) /\ m \notin Top.tried, [kind |-> "quiescence followed a move that is not a legal capture, or one twice", pos |-> ToFen(Top.p), mv |-> Lan(m)])
+       /\ Diag("DRIFT", OrderKey(m) >= Top.lastk, [kind |-> "captures tried out of the most-valuable-victim order", pos |-> ToFen(Top.p), mv |-> Lan(m)])
+       /\ stk' = SetTop([Top EXCEPT !.st = "qdescended", !.mv = m, !.hasmv = TRUE, !.tried = Top.tried \cup {m}, !.lastk = OrderKey(m)])
+  /\ ret' = Unknown /\ UNCHANGED <<pos, keymap, hist, root, mate>>
+
+TQChild ==
+  /\ IsEvent("QChild")
+  /\ LET v == Rec[l].value IN
+       /\ Diag("DRIFT", Top.st = "qwaiting", [kind |-> "quiescence child value without a child", st |-> Top.st])
+       /\ Diag("DRIFT", ret # Unknown /\ v = 0 - ret, [kind |-> "quiescence child value is not the negated value the child returned", value |-> v, returned |-> ret])
+       /\ stk' = SetTop(IF v >= Top.b THEN [Top EXCEPT !.st = "qcut", !.pval = Top.b]
+                        ELSE IF v > Top.a THEN [Top EXCEPT !.st = "qloop", !.a = v]
+                        ELSE [Top EXCEPT !.st = "qloop"])
+  /\ ret' = Unknown /\ UNCHANGED <<pos, keymap, hist, root, mate>>
+
+TQReturn ==
+  /\ IsEvent("QReturn")
+  /\ LET v == Rec[l].value IN
+       /\ Diag("DRIFT", Top.st \in {"qcut", "qloop"}, [kind |-> "quiescence return out of place", st |-> Top.st])
+       /\ (IF Top.st = "qcut"
+           THEN Diag("DRIFT", v = Top.pval, [kind |-> "quiescence stand-pat or cut-off returned another value than the rule gives", pos |-> ToFen(Top.p), value |-> v, expected |-> Top.pval, static |-> Top.stat])
+           ELSE /\ Diag("DRIFT", CapturesOf(Top.p) \subseteq Top.tried, [kind |-> "quiescence returned before trying every legal capture", pos |-> ToFen(Top.p), tried |-> Cardinality(Top.tried), captures |-> Cardinality(CapturesOf(Top.p))])
+                /\ Diag("DRIFT", v = Top.a, [kind |-> "quiescence returned something other than its alpha", value |-> v, alpha |-> Top.a]))
+       /\ Finish(v)
+  /\ UNCHANGED <<pos, keymap, hist, root, mate>>
+
+\* the hook's event budget ran out inside a sampled capture search: its frames are dropped and its value is unknown
+RECURSIVE DropQ(_)
+DropQ(s) == IF s # <<>> /\ IsQ(s[Len(s)]) THEN DropQ(SubSeq(s, 1, Len(s) - 1)) ELSE s
+TQAbandon == /\ IsEvent("QAbandon") /\ stk' = DropQ(stk) /\ ret' = Unknown /\ UNCHANGED <<pos, keymap, hist, root, mate>>
 
 TDescend ==
   /\ IsEvent("Descend")
@@ -141,7 +220,7 @@ TInterrupt == /\ IsEvent("Interrupt") /\ stk' = <<>> /\ ret' = Unknown /\ UNCHAN
 TOther == /\ l <= Len(Rec) /\ Rec[l].ev \in {"IterStart", "SearchStart", "Used"} /\ l' = l + 1 /\ UNCHANGED <<pos, stk, keymap, hist, ret, root, mate>>
 
 TraceInit == l = 1 /\ pos = StartPos /\ stk = <<>> /\ keymap = <<>> /\ hist = {} /\ ret = Unknown /\ root = StartPos /\ mate = <<0>>
-TraceNext == THeader \/ TWorkerStart \/ TWorkerEnd \/ TEnter \/ THistoryHit \/ TFind \/ TProbeReturn \/ TQuiesce \/ TDescend \/ TChild \/ TInsert \/ TTerminal \/ TReturn \/ TInterrupt \/ TOther
+TraceNext == THeader \/ TWorkerStart \/ TWorkerEnd \/ TEnter \/ THistoryHit \/ TFind \/ TProbeReturn \/ TQuiesce \/ TQEnter \/ TQTerminal \/ TQStatic \/ TQDescend \/ TQChild \/ TQReturn \/ TQAbandon \/ TDescend \/ TChild \/ TInsert \/ TTerminal \/ TReturn \/ TInterrupt \/ TOther
 Accepted == IF TLCGet("stats").diameter - 1 = Len(Rec) THEN PrintT(<<"ACCEPTED", Len(Rec)>>)
             ELSE PrintT(<<"STUCK", TLCGet("stats").diameter, Len(Rec)>>)
 =============================================================================
